@@ -1196,6 +1196,10 @@ func (fr *Frame) execCutLoop(l *Loop, ls *LoopSpec, entry []*Edge) {
 						ids = append(ids, callsID(n))
 					}
 				}
+				if _, ok := in.(*ssa.MapUpdate); ok && !seenID[callsID(mapUpdateName)] {
+					seenID[callsID(mapUpdateName)] = true
+					ids = append(ids, callsID(mapUpdateName))
+				}
 			}
 		}
 		for _, id := range ids {
